@@ -5,6 +5,7 @@ from __future__ import annotations
 import asyncio
 import errno
 import os
+import re
 import sys
 import warnings
 
@@ -15,6 +16,23 @@ from .drops import InjectedFault
 from .loop import Deadlock
 from .loop import SimLoop
 from .loop import StepCap
+
+
+_ADDR = re.compile(r" at 0x[0-9a-fA-F]+")
+
+
+def norm(o):
+    """Normalise an outcome for comparison: memory addresses in default reprs
+    (``<... object at 0x7f..>``) differ between any two executions."""
+    if isinstance(o, str):
+        return _ADDR.sub(" at 0x?", o) if " at 0x" in o else o
+    if isinstance(o, tuple):
+        return tuple(norm(x) for x in o)
+    if isinstance(o, list):
+        return [norm(x) for x in o]
+    if isinstance(o, dict):
+        return {k: norm(v) for k, v in o.items()}
+    return o
 
 
 class Inconclusive(Exception):
@@ -66,7 +84,7 @@ def canon_exc(exc: BaseException) -> tuple:
 
 def canon_call(fn, *args, **kwargs) -> tuple:
     try:
-        return ("ok", fn(*args, **kwargs))
+        return ("ok", norm(fn(*args, **kwargs)))
     except Inconclusive:
         raise
     except BaseException as exc:  # noqa: BLE001
